@@ -44,6 +44,7 @@ Definition ev_code (e : ev) : list Z :=
   | VCall k i p => [32; k; i; p]
   | VSample c e o => 33 :: zl c ++ zl e ++ zl o
   | VDeathSeen t k => [34; t; k]
+  | VHPSeen t d => [35; t; zb d]
   end.
 
 Definition ev_eqb (a b : ev) : bool := list_eqb Z.eqb (ev_code a) (ev_code b).
@@ -104,21 +105,21 @@ Definition monitor_case (c : case) : bool :=
   let '(st, tr, r, av) := snd c in
   match st with
   | RFinished =>
-      protocol_ok tr && one_termination tr && death_ok tr && killer_ok_from [] None tr && decision_ok (fst c) tr &&
+      protocol_ok tr && one_termination tr && death_ok tr && killer_ok_from [] [] tr && decision_ok (fst c) tr &&
       result_ok (nchars_of (fst c)) (Z.of_nat (length (c_units (fst c)))) tr r av
   | _ => true
   end.
 
 Definition monitor_detail (c : case) :=
   let '(st, tr, r, av) := snd c in
-  (protocol_ok tr, one_termination tr, death_ok tr, killer_ok_from [] None tr, decision_ok (fst c) tr, result_ok (nchars_of (fst c)) (Z.of_nat (length (c_units (fst c)))) tr r av).
+  (protocol_ok tr, one_termination tr, death_ok tr, killer_ok_from [] [] tr, decision_ok (fst c) tr, result_ok (nchars_of (fst c)) (Z.of_nat (length (c_units (fst c)))) tr r av).
 
 (* per-property monitors *)
 Definition fin (c : case) : bool := match fst (fst (fst (snd c))) with RFinished => true | _ => false end.
 Definition tr_of (c : case) : list ev := snd (fst (fst (snd c))).
 Definition monitor_c03 (c : case) : bool := negb (fin c) || (protocol_ok (tr_of c) && one_termination (tr_of c)).
 Definition monitor_c08 (c : case) : bool :=
-  negb (fin c) || (death_ok (tr_of c) && killer_ok_from [] None (tr_of c) && dead_state_ok (tr_of c)).
+  negb (fin c) || (death_ok (tr_of c) && killer_ok_from [] [] (tr_of c) && dead_state_ok (tr_of c)).
 Definition monitor_c09 (c : case) : bool :=
   let '(st, tr, r, av) := snd c in
   negb (fin c) || (one_termination tr && reason_ok (fst c) tr &&
